@@ -149,6 +149,16 @@ def run(ctx):
                 inj = c05.inject_clash(rng, e) if rng.random() < 0.5 else (c05.inject_reuse(rng, e) if t == gen.BOOL else None)
                 if inj is not None:
                     e = inj[0]
+        if n % 13 == 0 and k != 4:
+            # a quantifier over a tiny set of references whose variable is compared with another reference and used
+            # at a narrower type, in either order (rewrites that instantiate the variable share one node)
+            tg3 = gen.Typed(rng, this=case.this, aliases=case.aliases, maxdepth=1)
+            r1, r2, r3 = tg3.ref(gen.NUM, 0), tg3.ref(gen.NUM, 0), tg3.ref(gen.NUM, 0)
+            if r1 is not None and r2 is not None and r3 is not None:
+                eq = ('bin', gen.pick(rng, ('=', '!=')), A.var('qi'), r3)
+                narrow = gen.pick(rng, (('bin', '>', A.var('qi'), A.num('0')), ('bin', '<', ('bin', '+', A.var('qi'), A.num('1')), r2)))
+                body = ('bin', gen.pick(rng, ('and', 'or', 'implies')), eq, narrow) if rng.random() < 0.6 else ('bin', 'and', narrow, eq)
+                e = ('quant', gen.pick(rng, ('forall', 'exists')), 'qi', ('set', gen.pick(rng, ((r1,), (r1, r1), (r1, r2)))), body)
         if not A.renderable(e):
             continue
         level = gen.pick(rng, ('expression', 'condition', 'predicate')) if e[0] != 'lit' else 'expression'
